@@ -323,12 +323,33 @@ func init() {
 	})
 	regStub("strings.Index", exactStubs["internal/bytealg.IndexString"])
 	regStub("strings.Contains", func(ex *Exec, fn *ssa.Function, args []Value) Value {
-		a, ok := ex.concreteString(args[0].(*SliceV))
+		hs := args[0].(*SliceV)
+		a, ok := ex.concreteString(hs)
 		b, ok2 := ex.concreteString(args[1].(*SliceV))
-		if !ok || !ok2 {
+		if ok && ok2 {
+			return Bool(strings.Contains(a, b))
+		}
+		// symbolic haystack of concrete length, concrete needle: a disjunction over the offsets
+		n, okn := hs.Len.ConstVal()
+		if !ok2 || !okn || n > 4096 {
 			panic(unsupported("strings.Contains symbolic"))
 		}
-		return Bool(strings.Contains(a, b))
+		if len(b) == 0 {
+			return TTrue
+		}
+		if uint64(len(b)) > n {
+			return TFalse
+		}
+		hb := ex.readBytes(hs, int(n))
+		var alts []*Term
+		for off := 0; off+len(b) <= int(n); off++ {
+			conj := make([]*Term, len(b))
+			for j := 0; j < len(b); j++ {
+				conj[j] = Eq(hb[off+j], BV(8, uint64(b[j])))
+			}
+			alts = append(alts, AndB(conj...))
+		}
+		return OrB(alts...)
 	})
 	regStub(modPath+"/conn.AddrPortMappedEqual", func(ex *Exec, fn *ssa.Function, args []Value) Value {
 		// summary of the [16]byte view over the two address words: equal iff hi, lo and port are equal
@@ -336,6 +357,14 @@ func init() {
 		flatten(args[0], &l)
 		flatten(args[1], &r)
 		return AndB(Eq(l[0].(*Term), r[0].(*Term)), Eq(l[1].(*Term), r[1].(*Term)), Eq(l[3].(*Term), r[3].(*Term)))
+	})
+	regPrefix("slices.overlaps[", func(ex *Exec, fn *ssa.Function, args []Value) Value {
+		// distinct backing arrays never overlap (the general case needs address arithmetic)
+		a, b := args[0].(*SliceV), args[1].(*SliceV)
+		if a.Obj == nil || b.Obj == nil || a.Obj != b.Obj {
+			return TFalse
+		}
+		panic(unsupported("slices.overlaps on slices of one array"))
 	})
 	regStub("maps.Clone", func(ex *Exec, fn *ssa.Function, args []Value) Value {
 		m, _ := args[0].(*MapV)
